@@ -143,26 +143,109 @@ def thresholds(tier, rng):
     return out
 
 
-def observe_hg(b, obj, rng, tier, flags):
+def observe_hg(b, obj, rng, tier, flags, first_only=False):
+    """first_only: the same draws from rng, but only the FIRST argument combination of every function is called"""
     c = {"kind": "hg", "st": b.state(obj)}
     c["bip"] = log_bipartite(b, obj)
-    c["cliq"] = [log_clique(b, obj, keep, rng.randrange(3)) for keep in (False, True)]
+    spells = [rng.randrange(3), rng.randrange(3)]
+    c["cliq"] = [log_clique(b, obj, keep, sp) for keep, sp in zip((False, True), spells) if not (first_only and keep)]
     c["line"] = []
     for dist, s in thresholds(tier, rng):
         ws = (False, True) if tier == "thorough" else (rng.random() < 0.6,)
         for w in ws:
-            c["line"].append(log_line(b, obj, dist, s, w, rng, flags))
+            if not (first_only and c["line"]):
+                c["line"].append(log_line(b, obj, dist, s, w, rng, flags))
     c["simp"] = log_simplicial(b, obj)
     return c
 
 
-def observe_dir(b, obj, rng, tier, flags):
+def observe_dir(b, obj, rng, tier, flags, first_only=False):
     c = {"kind": "dir", "st": b.state(obj), "dline": []}
     for dist, s in thresholds(tier, rng):
         ws = (False, True) if tier == "thorough" else (rng.random() < 0.6,)
         for w in ws:
-            c["dline"].append(log_line(b, obj, dist, s, w, rng, flags, directed=True))
+            if not (first_only and c["dline"]):
+                c["dline"].append(log_line(b, obj, dist, s, w, rng, flags, directed=True))
     return c
+
+
+# ---------------------------------------------------------------------------
+# histories of ONE object: every projection is computed on the object (results ignored) with the arguments the judged
+# observation is going to use, the object is edited in place through public calls so that the numbers of nodes and of
+# hyperedges stay what they were (k hyperedges removed, k others over the nodes already there added; weighted: a weight
+# changed as well), nothing is computed in between, and then it is observed as usual.  What is judged is the object as it
+# is now (its state is read back through the public API), so a table kept per object and revalidated by such counts shows.
+HISTORY_SHARE = 0.2
+
+
+def measure_before(observe, b, obj, rng, tier):
+    """a clone of the generator replays the draws of the coming observation; the first argument combination of every function is
+    then called once more: the LAST call before the edit and the FIRST call after it have the same arguments"""
+    for first_only in (False, True):
+        r = random.Random()
+        r.setstate(rng.getstate())
+        observe(b, obj, r, tier, [], first_only)
+
+
+def _other_hg(present, taken, size, hr):
+    for z in [size] * 6 + [1, 2, 3, 4, 5] * 4:
+        if z <= len(present):
+            e = tuple(sorted(hr.sample(present, z)))
+            if e not in taken:
+                return e
+    return None
+
+
+def _other_dir(present, taken, size, hr):
+    for z in [size] * 6 + [2, 3, 4, 5] * 4:
+        if 2 <= z <= len(present):
+            nodes = hr.sample(present, z)
+            a = hr.randint(1, z - 1)
+            k = (tuple(sorted(nodes[:a])), tuple(sorted(nodes[a:])))
+            if k not in taken:
+                return k
+    return None
+
+
+def edit_in_place(b, obj, kind, es, weighted, hr):
+    """-> (hyperedges afterwards, record of the edit) or None when the object cannot be edited that way"""
+    es = [tuple(e) if kind == "hg" else (tuple(e[0]), tuple(e[1])) for e in es]
+    with quiet():
+        present = sorted(b.unlab(x) for x in obj.get_nodes())
+    if not es or not present or -1 in present:
+        return None
+    out = hr.sample(es, hr.randint(1, min(2, len(es))))
+    new = []
+    for e in out:
+        size = len(e) if kind == "hg" else len(e[0]) + len(e[1])
+        o = (_other_hg if kind == "hg" else _other_dir)(present, set(es) | set(new), size, hr)
+        if o is None:
+            return None
+        new.append(o)
+    rec = {"removed": [list(e) if kind == "hg" else [list(e[0]), list(e[1])] for e in out],
+           "added": [list(e) if kind == "hg" else [list(e[0]), list(e[1])] for e in new]}
+    api = (lambda e: b._tuple(e)) if kind == "hg" else (lambda e: (b._tuple(e[0]), b._tuple(e[1])))
+    keep, b.rng = b.rng, hr                      # listing orders of the edit come from the history generator
+    try:
+        with quiet():
+            n0, m0 = obj.num_nodes(), obj.num_edges()
+            for e in out:
+                obj.remove_edge(api(e))
+            for e in new:
+                obj.add_edge(api(e), **({"weight": hr.randint(1, 3)} if weighted else {}))
+            after = [e for e in es if e not in out] + new
+            if weighted:
+                e = hr.choice(after)
+                w = hr.choice([2, 3, 4])
+                obj.set_weight(api(e), w)
+                rec["set_weight"] = [list(e), w]
+            if (obj.num_nodes(), obj.num_edges()) != (n0, m0):
+                return None                      # the container did something else: C01/C02 judge that, not C10
+    except Exception:
+        return None
+    finally:
+        b.rng = keep
+    return after, rec
 
 
 # ---------------------------------------------------------------------------
@@ -299,22 +382,35 @@ def run(tier, seed):
             configs=[dict(n=2, maxw=1, batches=False, metaops=False)] if tier == "quick" else
                     [dict(n=3, maxw=1, batches=False, metaops=False)])
     rng = random.Random(seed)
+    hr = random.Random(seed * 7919 + 10)      # histories draw from their own generator: the inputs stay what they were for a seed
     t0 = time.time()
     flags = []
     cases, descr = [], []
     for (n, es, weighted, fam) in hg_inputs(tier, rng):
         b = Binding("hg", LABEL_FAMILIES[fam](n), rng)
         obj = build_hg(b, n, es, weighted, rng)
+        d = {"kind": "hg", "n": n, "hyperedges": [list(e) for e in es], "weighted": weighted, "family": fam, "labels": b.labels}
+        if hr.random() < HISTORY_SHARE and es:
+            measure_before(observe_hg, b, obj, rng, tier)
+            ed = edit_in_place(b, obj, "hg", es, weighted, hr)
+            if ed:
+                d.update(hyperedges=[list(e) for e in ed[0]], history=dict(ed[1], hyperedges_before=[list(e) for e in es]))
         cases.append(observe_hg(b, obj, rng, tier, flags))
-        descr.append({"kind": "hg", "n": n, "hyperedges": [list(e) for e in es], "weighted": weighted,
-                      "family": fam, "labels": b.labels})
+        descr.append(d)
     dcases, ddescr = [], []
     for (n, keys, fam) in dir_inputs(tier, rng):
         b = Binding("dir", LABEL_FAMILIES[fam](n), rng)
         obj = build_dir(b, n, keys, rng)
+        d = {"kind": "dir", "n": n, "hyperedges": [[list(S), list(T)] for S, T in keys], "weighted": False,
+             "family": fam, "labels": b.labels}
+        if hr.random() < HISTORY_SHARE and keys:
+            measure_before(observe_dir, b, obj, rng, tier)
+            ed = edit_in_place(b, obj, "dir", keys, False, hr)
+            if ed:
+                d.update(hyperedges=[[list(S), list(T)] for S, T in ed[0]],
+                         history=dict(ed[1], hyperedges_before=[[list(S), list(T)] for S, T in keys]))
         dcases.append(observe_dir(b, obj, rng, tier, flags))
-        ddescr.append({"kind": "dir", "n": n, "hyperedges": [[list(S), list(T)] for S, T in keys], "weighted": False,
-                       "family": fam, "labels": b.labels})
+        ddescr.append(d)
     t_py = time.time() - t0
     v1 = K.run_cases("Trace_C10", cases, {"Kind": "hg"}, procs=14)
     v2 = K.run_cases("Trace_C10", dcases, {"Kind": "dir"}, procs=10)
@@ -322,10 +418,15 @@ def run(tier, seed):
         for idx, failed in v["rejects"]:
             d = ds[idx]
             raised = sorted({g.get("exc", "") for g in _graphs(cs[idx]) if g.get("raised")})
+            h = d.get("history")
             res.reject({"clauses": failed},
-                       "%s disagree(s) with Projections.tla for the %s hypergraph %s on %d nodes labelled %s%s"
+                       "%s disagree(s) with Projections.tla for the %s hypergraph %s on %d nodes labelled %s%s%s"
                        % (",".join(failed), "directed" if d["kind"] == "dir" else ("weighted" if d["weighted"] else "unweighted"),
-                          d["hyperedges"], d["n"], d["labels"], (" [raised: %s]" % "; ".join(raised)) if raised else ""),
+                          d["hyperedges"], d["n"], d["labels"], (" [raised: %s]" % "; ".join(raised)) if raised else "",
+                          (" [history of the object: it held %s, every projection was computed on it with the same arguments, then %s "
+                           "were removed and %s added in place%s, and it was observed again]"
+                           % (h["hyperedges_before"], h["removed"], h["added"],
+                              (", set_weight(%s, %s)" % tuple(h["set_weight"])) if "set_weight" in h else "")) if h else ""),
                        {"case": d, "logged": strip(cs[idx]), "state": cs[idx]["st"]})
     if flags:
         res.reject({"clauses": ["weight_is_small_fraction"]},
@@ -338,6 +439,8 @@ def run(tier, seed):
             distinct_directed_hypergraphs=len({(d["n"], str(d["hyperedges"])) for d in ddescr}),
             line_graphs=sum(len(c["line"]) for c in cases), directed_line_graphs=sum(len(c["dline"]) for c in dcases),
             label_families=len({d["family"] for d in descr}),
+            objects_measured_again_after_in_place_edit=sum(1 for d in descr + ddescr if d.get("history")),
+            directed_objects_measured_again_after_in_place_edit=sum(1 for d in ddescr if d.get("history")),
             python_wall_s=round(t_py, 1), validator_wall_s=round(v1["wall"] + v2["wall"], 1))
     c = cases[-1]
     res.sample({"input": descr[-1], "bipartite": c["bip"], "clique": c["cliq"], "line_graph": c["line"][-1], "simplicial": c["simp"]})
@@ -347,5 +450,9 @@ def run(tier, seed):
                "thresholds are passed as int or float p/q; float(p/q) compares exactly against |A n B|/|A u B| for these small denominators",
                "clique projection with keep_isolated=False: any vertex set between the endpoints of the edges and all nodes is accepted",
                "unweighted line graphs: the weight attribute is not inspected; the simplicial complex may contain the empty hyperedge; its node set is not inspected",
+               "history of the OBJECT: about a fifth of the objects have every projection computed on them (results ignored, same arguments, the first "
+               "argument combination once more at the end), are then edited in place (k hyperedges removed, k others over the same nodes added, "
+               "weighted ones also set_weight; numbers of nodes and hyperedges unchanged) and only then observed; the statement speaks about the "
+               "hypergraph as it is, so the observation is judged against the state read back through the public API",
                "thorough: all 128 hypergraphs on 3 nodes (4 label families) and all 4096 directed hypergraphs on 3 nodes; larger ones are seeded samples")
     return res.finish()
